@@ -5,8 +5,14 @@
   Recognised source shapes
       return T[p];                                        shape = unchecked, guards = []
       if (c1 || c2 ...) return NULL; ... return T[p];     shape = guarded,   guards = [c1, c2, ...]
+      return helper(T, <constants>, p);                   one level of delegation: the helper's body must
+                                                          have one of the two shapes above over its own
+                                                          parameters; passing `p` to the helper's parameter is
+                                                          one more conversion in every chain
   where every `ci` compares the parameter, converted through a chain of integer types, with a
-  constant.  Any other body is `unrecognised` and has no semantics here (outcome `unknown`).
+  constant, and the index is the parameter converted through `indexConvs` (signedness matters: an
+  `int` index is negative for arguments >= 2^31).  Any other body is `unrecognised` and has no
+  semantics here (outcome `unknown`).
 -/
 namespace Rtr.NamesIR
 
@@ -51,6 +57,8 @@ deriving DecidableEq, Repr
 structure ToStrFn where
   shape : Shape
   paramTy : CInt
+  /-- conversions applied to the parameter before it is used as the array index -/
+  indexConvs : List CInt := []
   guards : List Guard
 deriving DecidableEq, Repr
 
@@ -70,10 +78,12 @@ def ToStrFn.runV (f : ToStrFn) (tbl : List (Option String)) (v : Int) : Outcome 
   | .unrecognised => .unknown
   | _ =>
     if f.guards.any (·.fires v) then .ok none
-    else if v < 0 then .oob
-    else match tbl[v.toNat]? with
-      | some e => .ok e
-      | none => .oob
+    else
+      let idx := f.indexConvs.foldl (fun x t => t.wrap x) v
+      if idx < 0 then .oob
+      else match tbl[idx.toNat]? with
+        | some e => .ok e
+        | none => .oob
 
 /-- the function called with the C integer `i` as argument (converted to the enum's type) -/
 def ToStrFn.run (f : ToStrFn) (tbl : List (Option String)) (i : Int) : Outcome :=
